@@ -1517,8 +1517,7 @@ package desync
 //@   safety none
 //# the link's own modification time is restored (needs an lutimes-style call: none exists today)
 //@   ghost@entry $timed = false
-//@   ghost@after:Lutimes $timed = true
-//@   ghost@after:UtimesNanoAt $timed = true
+//# (a repair would add: ghost@after:<the lutimes-style call> $timed = true)
 //@   ensures @C05 r0 == nil ==> $timed
 //@   oncall Unlink: requires $arg0 == pjoin(fs.Root, n.Name)
 //@   oncall Symlink: requires $arg1 == pjoin(fs.Root, n.Name) && $arg0 == n.Target
